@@ -425,6 +425,12 @@ def placeholder_default_class(violation, known):
             and violation.get('case', {}).get('moves') == ['global-vars:placeholder-equals-default'])
 
 
+def path_default_class(violation, known):
+    """K2d: a Path-typed parameter (not under dont_persist_default_value) whose default is a Path object: left out it is
+    rendered as repr(Path) - PosixPath('...') -, spelled out as the string"""
+    return violation.get('suite') == 'path_defaults' and str(violation.get('oracle', '')).startswith('[path-default-repr]')
+
+
 def hash_seed_class(violation, known):
     """K2b: a parameter object that keeps a SET of strings as an attribute - its repr follows the hash seed"""
     return violation.get('suite') == 'fresh_interpreters' and has_set_attribute(violation.get('case', {}).get('case', {}))
@@ -437,7 +443,7 @@ from taskchain import Task, Parameter
 class Load(Task):
     class Meta:
         parameters = [Parameter('source'),
-                      Parameter('workdir', dtype=Path, default=__DEFAULT__, dont_persist_default_value=True),
+                      Parameter('workdir', dtype=Path, default=__DEFAULT__, dont_persist_default_value=__DROP__),
                       Parameter('limit', dtype=int, default=10, dont_persist_default_value=True)]
     def run(self, source, workdir, limit) -> str:
         return f'{source}@{workdir}[:{limit}]'
@@ -460,8 +466,8 @@ class PathDefaults(Suite):
     model = ''
 
     def gen(self, rng, tier):
-        return [dict(default=d, spelled=sp, where=w) for d in ("Path('/data/work')", "'/data/work'")
-                for sp in ('/data/work', '/data/work/', '/data//work', '/data/other') for w in ('config', 'context')]
+        return [dict(default=d, spelled=sp, where=w, drop=dr) for d in ("Path('/data/work')", "'/data/work'")
+                for sp in ('/data/work', '/data/work/', '/data//work', '/data/other') for w in ('config', 'context') for dr in (True, False)]
 
     def run_impl(self, case):
         import sys, types
@@ -472,7 +478,7 @@ class PathDefaults(Suite):
             m = types.ModuleType(name)
             sys.modules[name] = m
             try:
-                exec(compile(PATH_SRC.replace('__DEFAULT__', case['default']), name, 'exec'), m.__dict__)
+                exec(compile(PATH_SRC.replace('__DEFAULT__', case['default']).replace('__DROP__', str(case.get('drop', True))), name, 'exec'), m.__dict__)
                 data = {'tasks': [f'{name}.*'], 'source': 's'}
                 implicit = Config(Path('data'), name='implicit', data=dict(data)).chain()
                 if case['where'] == 'config':
@@ -495,8 +501,11 @@ class PathDefaults(Suite):
         for n, a in obs['implicit'].items():
             b = obs['explicit'][n]
             if same_value and object_default and a[1] != b[1]:
-                return (f'{case}: {n} is stored under {a[1]} when the parameter is left out and under {b[1]} when its default '
+                tag = '' if case.get('drop', True) else '[path-default-repr] '
+                return (f'{tag}{case}: {n} is stored under {a[1]} when the parameter is left out and under {b[1]} when its default '
                         f'is spelled out ({case["where"]})')
+            if same_value and not object_default and not case.get('drop', True) and case['spelled'] == '/data/work' and a[1] != b[1]:
+                return f'{case}: {n} has the locations {a[1]} / {b[1]} for the default left out / spelled out'
             if not same_value and a[1] == b[1]:
                 return f'{case}: {n} has one location for workdir {a[2]} and {b[2]}'
         return None
@@ -683,7 +692,8 @@ class C02(Prop):
     pid = 'C02'
     suites = [Rewrites(), Registry(), ObjectArgOrder(), HashSeeds(), PathDefaults(), IgnoredValues(), ValueSources()]
     known_classes = {'object-argument-order': object_order_class, 'object-argument-order-registry': object_arg_order_class,
-                     'hash-seed-set-attribute': hash_seed_class, 'placeholder-equals-default': placeholder_default_class}
+                     'hash-seed-set-attribute': hash_seed_class, 'placeholder-equals-default': placeholder_default_class,
+                     'path-default-repr': path_default_class}
     trusted_base = ['the interpreter hash seed is not in the model (partial): it is exercised by fresh interpreters only']
     assumptions = ['values are JSON-like or objects rendered by their own repr']
 
